@@ -36,6 +36,9 @@ GATE_SNIPS = [
     "{% include 'ginc.html' %}",
     "{% set v = gate('s') %}{{ v }}{{ tid }}", "{% set who = tid %}{{ gate('t') }}{{ who }}",
     "{% autoescape true %}{{ gate('e') }}{{ html }}{% endautoescape %}{{ html }}", "{{ html }}{{ gate('h') }}{{ [html, html]|join('-') }}{{ html|upper }}",
+    # a module imported without context whose macro reads a template-level global of the importer; the tasks' template
+    # objects carry different values for it (sets with TPL_GLOBALS)
+    "{% import 'glibg.html' as LG %}{{ LG.show() }}{{ gate('tg') }}{{ LG.show() }}{{ LG.tv }}", "{% from 'glibg.html' import show %}{{ gate('th') }}{{ show() }}",
     # values that pass through auto_await: a plain generator object (not awaitable) and a generator-based coroutine made by
     # types.coroutine (awaitable, same type): in either order, in different tasks
     "{% for x in plaingen() %}{{ x }}{% endfor %}{{ gate('pg') }}{{ legacy(tid) }}", "{{ legacy(tid) }}{{ gate('lg') }}{% for x in plaingen() %}{{ x }}{% endfor %}",
@@ -65,6 +68,7 @@ AUX = {
     "pa.html": "PA({% block b %}a-b{% endblock %}|{% block c %}a-c{% endblock %})",
     "pb.html": "PB<{% block c %}b-c{{ gate('pb') }}{% endblock %}|{% block b %}b-b{% endblock %}>",
     "pc.html": "{% extends 'pa.html' %}{% block b %}c-b{{ super() }}{% endblock %}",
+    "glibg.html": "{% macro show() %}[{{ tgv|default('-') }}]{% endmacro %}{% set tv = tgv|default('-') %}",
     "glib3.html": "{% macro gm3(p) %}<b>{{ ggate('m3') }}{{ p }}</b>{% endmacro %}",
     "glib4.html": "{% macro f4(x) %}{% autoescape false %}{{ ggate('ae') }}{{ [x, '<m>'|safe]|join('-') }}{% endautoescape %}{% endmacro %}"
                   "{% macro s4(x) %}{% autoescape false %}{{ ggate('as') }}{% set v %}{{ x }}{% endset %}{{ v }}{% macro c4() %}{{ caller() }}{% endmacro %}{% call c4() %}{{ x }}{% endcall %}{% endautoescape %}{% endmacro %}"
@@ -176,9 +180,15 @@ def task_data(sched, tid):
     return data
 
 
+TPL_GLOBALS = [False]    # every task renders its own template object made with a template-level global tgv = its task id
+
+
 async def render_task(env, name, data):
     try:
-        t = env.get_template(name)
+        if TPL_GLOBALS[0]:
+            t = env.from_string(env.loader.get_source(env, name)[0], globals={"tgv": data.get("tid", "?")})
+        else:
+            t = env.get_template(name)
         if data.get("tid", "T0")[-1] in "13" and ENTRY_MIX[0]:
             return "ok:" + "".join([c async for c in t.generate_async(**data)])
         return "ok:" + await t.render_async(**data)
@@ -278,6 +288,7 @@ def run(ctx):
                 ntasks = ctx.rng.choice([2, 2, 3])
                 auto = (si % 3 == 1) if si >= len(FIXED) else FIXED_AUTO[si]
                 SANDBOX[0] = (si % 5 == 2)
+                TPL_GLOBALS[0] = (si % 3 == 2) or (si < len(FIXED) and FIXED_TPLG[si])
                 ENTRY_MIX[0] = (si % 2 == 1)
                 reuse = (si % 4 == 0 and si >= len(FIXED))
                 for _attempt in range(20):
@@ -317,7 +328,7 @@ def run(ctx):
                 for order_idx in merges(seqs):
                     order = [f"T{i}" for i in order_idx]
                     case = {"templates": templates, "names": names, "order": order, "autoescape": auto, "sandbox": SANDBOX[0],
-                            "entry_mix": ENTRY_MIX[0], "shared_env": reuse}
+                            "entry_mix": ENTRY_MIX[0], "shared_env": reuse, "tpl_globals": TPL_GLOBALS[0]}
                     try:
                         outs, parked, deviated = run_order(jinja2, loop, templates, names, order, auto, shared)
                     except Exception as e:  # noqa
@@ -366,7 +377,9 @@ FIXED.append([DYN_PARENT[0], DYN_PARENT[0], DYN_PARENT[0]])      # one template,
 AE_DYN = "{% autoescape (tid == 'T0') %}{{ gate('ax') }}{{ [html, '<m>'|safe]|join('-') }}{{ html }}{% endautoescape %}{{ html }}"
 FIXED.append([AE_DYN, AE_DYN])        # one Template object, two tasks, different run-time autoescape decisions
 FIXED.append(["{% for x in plaingen() %}{{ x }}{% endfor %}{{ gate('pg') }}{{ legacy(tid) }}", "{{ gate('lg') }}{{ legacy(tid) }}{% for x in plaingen() %}{{ x }}{% endfor %}"])
-FIXED_AUTO = [False, False, False, True, False, False, False, False]
+FIXED.append(["{% import 'glibg.html' as LG %}{{ LG.show() }}{{ gate('tg') }}{{ LG.show() }}{{ LG.tv }}", "{% from 'glibg.html' import show %}{{ gate('th') }}{{ show() }}"])
+FIXED_AUTO = [False, False, False, True, False, False, False, False, False]
+FIXED_TPLG = [False] * 8 + [True]
 
 
 def replay(ctx, data):
@@ -380,6 +393,7 @@ def replay(ctx, data):
     auto = case.get("autoescape", False)
     SANDBOX[0] = case.get("sandbox", False)
     ENTRY_MIX[0] = case.get("entry_mix", False)
+    TPL_GLOBALS[0] = case.get("tpl_globals", False)
     alone = [run_alone(jinja2, loop, templates, n, f"T{i}", auto) for i, n in enumerate(names)]
     outs, parked, deviated = run_order(jinja2, loop, templates, names, order, auto)
     loop.close()
